@@ -64,12 +64,13 @@ package keeper
 //@ func findAccountState(states, account) (pos)
 //@   requires states != nil && account != nil && statesHaveAccounts(*states)
 //@   ensures -1 <= pos && pos < len(*states)
-//@   ensures pos >= 0 ==> (*states)[pos].Account.Id == account.Id
-//@   ensures pos == -1 ==> (forall k: int :: {(*states)[k].Account} 0 <= k && k < len(*states) ==> (*states)[k].Account.Id != account.Id)
+//@   // C04: a destination's state is found by its full identity (type and id), the same pair the store key is built from
+//@   ensures [same-account] pos >= 0 ==> (*states)[pos].Account.Id == account.Id && (*states)[pos].Account.Type == account.Type
+//@   ensures pos == -1 ==> (forall k: int :: {(*states)[k].Account} 0 <= k && k < len(*states) ==> (*states)[k].Account.Id != account.Id || (*states)[k].Account.Type != account.Type)
 //@   prop C03 C04 C10
 //@ loop findAccountState#1
 //@   invariant -1 <= \i - 1 && \i <= len(*states)
-//@   invariant forall k: int :: {(*states)[k].Account} 0 <= k && k < \i ==> (*states)[k].Account.Id != account.Id
+//@   invariant forall k: int :: {(*states)[k].Account} 0 <= k && k < \i ==> (*states)[k].Account.Id != account.Id || (*states)[k].Account.Type != account.Type
 //@ func findBurnState(states) (pos)
 //@   requires states != nil
 //@   ensures -1 <= pos && pos < len(*states)
